@@ -3,7 +3,11 @@
  *   masked key = key32 XOR TaggedHash_aux(data)   if data != NULL
  *              = key32 XOR ZERO_MASK              if data == NULL  (ZERO_MASK = H_aux(0^32): C02.midstates)
  *   nonce32    = digest of [tag midstate | generic SHA256(algo)||SHA256(algo)] || masked(32) || pk(32) || msg(msglen)
- * sha256_write/_finalize are replaced by the stream contracts (hash_log.h + second finalize watch). */
+ * STREAM level: sha256_write/_finalize are replaced by the stream contracts (hash_log.h + second finalize watch); the
+ * block-level idiom (harness/hash_blocks.h) was not affordable here (up to three chained hash computations with two
+ * symbolic lengths).  Tolerated restructurings: for algo = "BIP0340/nonce" either the precomputed midstate or the generic
+ * tagged initialisation; any split of the writes.  Still pinned (stream-level residue): hashing goes through
+ * secp256k1_sha256_write/_finalize, and the aux hash is computed before the tag hash. */
 #define C02_HASHLOG2
 #include "assumed_C02.h"
 #include "src/secp256k1.c"
@@ -15,7 +19,7 @@ void h_nonce(void) {
     INPUT(size_t, msglen); INPUT(size_t, algolen); INPUT(int, we); INPUT(int, we2); INPUT(uint64_t, wpos);
     static const unsigned char bip[13] = {'B','I','P','0','3','4','0','/','n','o','n','c','e'};
     unsigned char nonce32[32]; unsigned char *msg, *algo; secp256k1_hash_ctx hc;
-    int ret, is_bip, e_main, i, same;
+    int ret, is_bip, e_main, generic, i, same;
     __CPROVER_assume(msglen <= 100000 && algolen <= 200);
     INPUT_BUF(msgw, msg, msglen, 64);
     INPUT_BUF(algow, algo, algolen, 32);
@@ -28,31 +32,35 @@ void h_nonce(void) {
 
     is_bip = (algolen == 13);
     if (is_bip) for (i = 0; i < 13; i++) is_bip &= (algo[i] == bip[i]);
-    e_main = (use_data ? 1 : 0) + (is_bip ? 0 : 1);
-
     if (!use_algo) {
-        __CPROVER_assert(ret == 0 && g_fin_n == 0 && g_h_fresh == 1, "C02 nonce: algo == NULL returns 0 and hashes nothing");
+        __CPROVER_assert(ret == 0, "C02 nonce: algo == NULL returns 0");
         REACH("nonce algo NULL");
         return;
     }
     __CPROVER_assert(ret == 1, "C02 nonce: returns 1 whenever algo != NULL");
-    __CPROVER_assert(g_fin_n == e_main + 1, "C02 nonce: number of hash computations = [aux] + [generic tag] + 1");
+    /* layout of the hash computations: [aux] then either main-from-midstate or tag hash + main-from-initial-state */
+    e_main = g_fin_n - 1; generic = (g_fin_n == (use_data ? 1 : 0) + 2);
+    __CPROVER_assert(generic || (is_bip && g_fin_n == (use_data ? 1 : 0) + 1), "C02 nonce: hash computations = [aux] + main (BIP0340/nonce midstate) or [aux] + tag hash + main (generic tagged hash; mandatory for any other algo)");
+    if (!(generic || (is_bip && g_fin_n == (use_data ? 1 : 0) + 1))) return;
+    if (use_data && g_we == 0 && g_wpos == 70) REACH("nonce aux hash input byte");
+    if (generic && g_we == e_main - 1 && algolen > 5 && g_wpos == 3) REACH("nonce tag hash input byte");
+    if (generic && algolen == 0 && g_we == e_main - 1) REACH("nonce tag hash of the empty algo");
     if (use_data && g_we == 0) {
         __CPROVER_assert(g_w_started && g_w_b0 == 64 && g_w_s0 == 0x24dd3219ul && g_w_s7 == 0x249e850aul, "C02 nonce: aux hash starts from the BIP0340/aux midstate with 64 bytes absorbed");
         __CPROVER_assert(g_w_fin && g_w_end == 96, "C02 nonce: aux hash absorbs exactly 32 bytes");
         if (g_wpos >= 64 && g_wpos < 96) __CPROVER_assert(g_w_hit && g_w_byte == aux[g_wpos - 64], "C02 nonce: aux hash input is data[0..32)");
     }
-    if (!is_bip && g_we == e_main - 1) {
+    if (generic && g_we == e_main - 1) {
         __CPROVER_assert(g_w_fin && g_w_end == (uint64_t)algolen, "C02 nonce: generic tag hash absorbs exactly algolen bytes");
         if (algolen > 0) __CPROVER_assert(g_w_started && g_w_b0 == 0 && g_w_s0 == 0x6a09e667ul && g_w_s7 == 0x5be0cd19ul, "C02 nonce: generic tag hash starts from the SHA-256 initial state");
         if (g_wpos < (uint64_t)algolen) __CPROVER_assert(g_w_hit && g_w_byte == algo[g_wpos], "C02 nonce: generic tag hash input is algo[0..algolen)");
     }
     if (g_we == e_main) {
         __CPROVER_assert(g_w_started && g_w_fin, "C02 nonce: main hash written and finalized");
-        if (is_bip) __CPROVER_assert(g_w_b0 == 64 && g_w_s0 == 0x46615b35ul && g_w_s7 == 0x68b07b4cul, "C02 nonce: algo = BIP0340/nonce starts from the BIP0340/nonce midstate with 64 bytes absorbed");
+        if (!generic) __CPROVER_assert(g_w_b0 == 64 && g_w_s0 == 0x46615b35ul && g_w_s7 == 0x68b07b4cul, "C02 nonce: algo = BIP0340/nonce without tag hash starts from the BIP0340/nonce midstate with 64 bytes absorbed");
         else {
-            __CPROVER_assert(g_w_b0 == 0 && g_w_s0 == 0x6a09e667ul && g_w_s7 == 0x5be0cd19ul, "C02 nonce: other algo starts from the SHA-256 initial state");
-            if (g_we2 == e_main - 1 && g_wpos < 64) __CPROVER_assert(g_w2_fin && g_w_hit && g_w_byte == g_w2_dig[g_wpos % 32], "C02 nonce: other algo: first 64 bytes are SHA256(algo)||SHA256(algo)");
+            __CPROVER_assert(g_w_b0 == 0 && g_w_s0 == 0x6a09e667ul && g_w_s7 == 0x5be0cd19ul, "C02 nonce: generic tagged hash starts from the SHA-256 initial state");
+            if (g_we2 == e_main - 1 && g_wpos < 64) __CPROVER_assert(g_w2_fin && g_w_hit && g_w_byte == g_w2_dig[g_wpos % 32], "C02 nonce: generic tagged hash: first 64 bytes are SHA256(algo)||SHA256(algo)");
         }
         __CPROVER_assert(g_w_end == 128 + (uint64_t)msglen, "C02 nonce: main hash length is 64 + 32 + 32 + msglen for every msglen");
         if (g_wpos >= 64 && g_wpos < 128 + (uint64_t)msglen) {
@@ -67,9 +75,12 @@ void h_nonce(void) {
         same = 1; for (i = 0; i < 32; i++) same &= (nonce32[i] == g_w_dig[i]);
         __CPROVER_assert(same, "C02 nonce: nonce32 is the digest of the main hash");
         if (g_wpos == 128 + 70000 && msglen > 70001) REACH("nonce long message position");
-        if (use_data && is_bip && g_we2 == 0 && g_wpos == 70) REACH("nonce aux present, BIP algo, masked key byte");
-        if (!use_data && !is_bip && g_we2 == 0 && g_wpos == 5) REACH("nonce aux absent, generic algo, tag prefix byte");
-        if (use_data && !is_bip && algolen == 0) REACH("nonce empty algo");
+        if (use_data && is_bip && !generic && g_we2 == 0 && g_wpos == 70) REACH("nonce aux present, BIP algo via midstate, masked key byte");
+        if (!use_data && generic && g_we2 == 0 && g_wpos == 5) REACH("nonce aux absent, generic algo, tag prefix byte");
+        if (!use_data && g_wpos == 70) REACH("nonce aux absent, masked key byte (ZERO_MASK)");
+        if (use_data && generic && g_we2 == 0 && g_wpos == 70) REACH("nonce aux present, generic algo, masked key byte");
+        if (g_wpos == 100) REACH("nonce public key byte");
+        if (use_data && generic && algolen == 0) REACH("nonce empty algo");
         if (msglen == 0 && msg == NULL) REACH("nonce empty NULL message");
     }
     REACH("nonce end");
